@@ -36,5 +36,8 @@ LeavesFull  == AllBasics \cup {NI, NI2, NS, NSt, NSt2, NA, NP, NSl, NM, ANY, ERR
 LeavesDeep  == {INT, STR, NI, NSt, NSt2, NA, ANY}
 LeavesTiny  == {INT, STR, NI, NSt}
 
+\* the leaves goverter cannot convert by itself, and named non-struct types (C13)
+LeavesOdd   == {INT, B("uintptr"), B("unsafe.Pointer"), ERR, ANY, IFM, Fn, Ch, NI, NSt, NP, NSl, NM, NA}
 Cfgs == [skip : BOOLEAN, zero : BOOLEAN]
+CfgsSkip == [skip : BOOLEAN, zero : {FALSE}]
 =============================================================================
